@@ -318,3 +318,94 @@ UNITS = [
     Unit('lemma:fold-congruence', None, u_lemma, kind='lemma'),
 ]
 UNITS = [u for u in UNITS if u.run_fn is not None]
+
+
+# ---- bounded stand-in (never counted as proved) ----------------------------------------------------------
+def standin_sum(tier, seed):
+    """Run-time evaluation of the C01 postcondition on the real code: unit vectors for every group of every shipped
+    library, random mappings (integer, fractional, zero, negative counts; same key set re-used with other counts on
+    the same library object), mappings with descriptors lacking data."""
+    import random
+    from . import real
+    from pgradd.Error import GroupMissingDataError, IncompleteDataError
+    rnd = random.Random(seed)
+    nrand = 12 if tier == 'quick' else 120
+    viol, n, distinct, samples = [], 0, set(), []
+    props = ['get_CpoR', 'get_HoRT', 'get_SoR', 'get_GoRT']
+
+    def expect(lib, groups, prop, T):
+        tot = 0.0
+        for g, c in groups.items():
+            corr = lib[g]['thermochem']
+            kind, v = real.outcome(getattr(corr, prop), T)
+            if kind == 'exc':
+                return ('exc', v)
+            tot += c * v
+        return ('ok', tot)
+
+    def check(libname, lib, groups, tag):
+        nonlocal n
+        lo, hi = real.common_range(lib, groups)
+        Ts = [298.15] if lo is None else [lo, hi, 0.5 * (lo + hi), lo + 0.37 * (hi - lo)]
+        lib.name = 'C'
+        kind, est = real.outcome(lib.Estimate, dict(groups), 'thermochem')
+        if kind == 'exc':
+            viol.append({'id': '%s-%s-estimate' % (libname, tag), 'input': {'library': libname, 'groups': {str(k): v for k, v in groups.items()}},
+                         'observed': est, 'expected': 'an estimate'})
+            return
+        for T in Ts:
+            for p in props:
+                n += 1
+                want = expect(lib, groups, p, T)
+                got = real.outcome(getattr(est, p), T)
+                ok = (want[0] == got[0]) and (want[0] == 'exc' and want[1] == got[1] == 'IncompleteDataError' or
+                                              want[0] == 'ok' and real.close(want[1], got[1], 1e-9, 1e-9))
+                if want[0] == 'exc' and want[1] != 'IncompleteDataError':
+                    ok = True   # constituent itself fails otherwise (outside this property)
+                if not ok and len(viol) < 20:
+                    viol.append({'id': '%s-%s-%s-%g' % (libname, tag, p, T),
+                                 'input': {'library': libname, 'groups': {str(k): v for k, v in groups.items()}, 'property': p, 'T': T},
+                                 'observed': got, 'expected': want,
+                                 'script': "import pgradd.ThermoChem\nfrom pgradd.GroupAdd.Library import GroupLibrary\nlib = GroupLibrary.Load(%r); lib.name='C'\n"
+                                           "g = %r\nest = lib.Estimate(g, 'thermochem')\nprint(est.%s(%r), sum(c*lib[k]['thermochem'].%s(%r) for k, c in g.items()))\n"
+                                           % (libname, {str(k): v for k, v in groups.items()}, p, T, p, T)})
+        distinct.add((libname, tuple(sorted((str(k), v) for k, v in groups.items()))))
+        if len(samples) < 5:
+            samples.append({'library': libname, 'groups': {str(k): v for k, v in list(groups.items())[:4]}, 'T': Ts})
+
+    for libname in real.LIBS:
+        lib = real.load(libname)
+        gs = real.thermo_groups(lib)
+        for g in gs:
+            check(libname, lib, {g: 1}, 'unit')
+        for r in range(nrand):
+            k = rnd.randint(1, min(6, len(gs)))
+            keys = rnd.sample(gs, k)
+            counts = [rnd.choice([0, 0.0, 1, 2, 3, -1, -2.5, 0.5, 1.25, 7]) for _ in keys]
+            check(libname, lib, dict(zip(keys, counts)), 'rand%d' % r)
+            # same key set, other counts, same library object
+            check(libname, lib, dict(zip(keys, [c * 0.5 + 1 for c in counts])), 'rand%db' % r)
+        # missing data: exactly the descriptors without the property set must be named
+        lack = ['NoSuch(X)', 'Other(Y)2']
+        keys = rnd.sample(gs, min(3, len(gs)))
+        m = {k: 1 for k in keys}
+        order = lack[:1] + keys + lack[1:]
+        m = {k: (m.get(k, 2)) for k in order}
+        n += 1
+        try:
+            with real.quiet():
+                lib.Estimate(m, 'thermochem')
+            got = 'returned'
+        except GroupMissingDataError as e:
+            got = [str(g) for g in e.groups]
+        except Exception as e:     # noqa
+            got = 'raised ' + type(e).__name__
+        if got != lack:
+            viol.append({'id': '%s-missing' % libname, 'input': {'library': libname, 'groups': {str(k): v for k, v in m.items()}},
+                         'observed': got, 'expected': lack})
+    return {'name': 'estimate-is-weighted-sum', 'bound': 'unit vectors of all groups of 9 libraries + %d random mappings per library x up to 4 temperatures x 4 properties' % (2 * nrand),
+            'evaluations': n, 'distinct_nontrivial': len(distinct), 'violations': viol, 'samples': samples,
+            'rule': 'a case is a (library, mapping); distinct by mapping; all are non-trivial (at least one group with data)'}
+
+
+STANDINS = [standin_sum]
